@@ -128,11 +128,12 @@ T2 == {Pr("pair", <<a, b>>, an) : a \in T1s, b \in T1s \cup T0p, an \in {<<>>, <
 \* data
 big == <<0, 0, 0, 0, 0, 0, 0, 0, 64>>                 \* 2^70
 tricky == <<113, 34, 92, 10, 32, 32, 35, 123>>        \* q"\<newline><two blanks>#{
+slashes == <<67, 58, 92, 110, 101, 119, 92, 116, 92, 114, 92, 92, 110, 92>>     \* C:\new\t\r\\n\  - backslashes in front of the letters n, t, r (characters, not escapes), a doubled one, one at the end
 long == [k \in 1..96 |-> 120]
-D0 == {Num(FALSE, <<>>), Num(TRUE, <<1>>), Num(FALSE, big), Num(TRUE, big), Str(<<>>), Str(<<32, 97, 32, 32, 98, 32>>), Str(tricky), Str(long),
+D0 == {Num(FALSE, <<>>), Num(TRUE, <<1>>), Num(FALSE, big), Num(TRUE, big), Str(<<>>), Str(<<32, 97, 32, 32, 98, 32>>), Str(tricky), Str(long), Str(slashes),
        Byt(<<>>), Byt(<<0, 255>>), Pr("Unit", <<>>, <<>>), Pr("True", <<>>, <<>>), Pr("None", <<>>, <<>>)}
 D0s == {Num(TRUE, <<1>>), Str(tricky), Byt(<<>>), Pr("Unit", <<>>, <<>>), Num(FALSE, big), Str(<<>>)}
-D0p == {Num(TRUE, <<1>>), Str(long), Pr("None", <<>>, <<>>)}
+D0p == {Num(TRUE, <<1>>), Str(long), Pr("None", <<>>, <<>>), Str(slashes)}
 D1 == {Pr("Pair", <<a, b>>, <<>>) : a \in D0s, b \in D0s}
       \cup {Pr(n, <<a>>, <<>>) : n \in {"Left", "Right", "Some"}, a \in D0}
       \cup {Pr("Pair", <<a, b, a>>, <<>>) : a \in D0p, b \in D0p}
